@@ -1471,6 +1471,8 @@ KNOWN = runner.known_signatures(PROP)
 def batch(task):
     lib.get()
     agg = new_agg()
+    if runner.past_deadline():
+        return agg  # the tier's soft time budget is used up: no further runs are started
     for run in range(task["lo"], task["hi"]):
         try:
             res, prog = runner.guarded(one_run, 120, task["seed"], run)
